@@ -420,6 +420,12 @@ static void c13_comparisons() {
     { g_live.clear(); { nop::Optional<TA> a, b; if (sa >= 0) a = TA(sa); if (sb >= 0) b = TA(sb); cmp_pair("tracked-tracked", a, b, sa, sb); if (sb >= 0) { TA v(sb); cmp_value("tracked-tracked", a, v, sa, sb); } } if (!g_live.empty() || !g_fault.empty()) rep().violation("C13:registry:compare", "comparison leaked or used a dead object", ""); g_fault.clear(); }
     { nop::Entry<int, 1> a; nop::Entry<int, 2> b; if (sa >= 0) a = sa; if (sb >= 0) b = sb; cmp_pair("entry-entry", static_cast<const nop::Optional<int>&>(a), static_cast<const nop::Optional<int>&>(b), sa, sb); }
   }
+  // nested optionals: rank -2 = empty, -1 = engaged holding an empty inner optional, k >= 0 = engaged holding engaged(k); the same total order applies one level down
+  for (int sa = -2; sa < 4; sa++) for (int sb = -2; sb < 4; sb++) {
+    using OO = nop::Optional<nop::Optional<int>>;
+    auto mk = [](int k) { OO o; if (k == -1) o = OO{nop::InPlace{}, nop::Optional<int>{}}; else if (k >= 0) o = OO{nop::InPlace{}, nop::Optional<int>{k}}; return o; };
+    OO a = mk(sa), b = mk(sb); cmp_pair("nested-nested", a, b, sa, sb);
+  }
   // every ErrorStatus has a defined message
   for (int i = 0; i <= 18; i++) {
     nop::Status<void> s{(nop::ErrorStatus)i}; const char* msg = s.GetErrorMessage(); rep().note_enumerated(true); rep().count("c13_error_messages");
